@@ -91,7 +91,14 @@ def h_checked_add_assign(ex, st, frame, t, nf, args, dty):
     return [(Sym(okv, "bool"), None)]
 
 
+def h_is_offloaded(ex, st, frame, t, nf, args, dty):
+    """FilterTrait::is_filter_offloaded: an arbitrary answer.  An off-loaded filter keeps answering (from the file) with
+    the bits it had, so in the model it is an ordinary filter whose flag may be set."""
+    return [(Sym(z3.Bool(fresh_name("offloaded")), "bool"), None)]
+
+
 HIER_SUMMARIES = [
+    (r"^<Filter as (\S*::)?FilterTrait<Key>>::is_filter_offloaded$", h_is_offloaded),
     (r"^<Child as (\S*::)?BloomProvider<Key>>::get_filter_fast$", h_get_filter_fast),
     (r"^<Child as (\S*::)?BloomProvider<Key>>::get_filter$", h_get_filter_slow),
     (r"^<Filter as (\S*::)?FilterTrait<Key>>::contains_fast$", h_contains_fast),
